@@ -37,6 +37,32 @@ def atomTable : Expr → List (String × Expr)
     | .ok (nm, _) => [(nm, e)]
     | .error _ => []
 
+/-- `var_names` of one component of a resolved term: a Variable gives its name, a Call the
+variables of its arguments (looked up in the formula by the component's name) -/
+def atomUsed (table : List (String × Expr)) (a : Terms.Atom) : List String :=
+  match table.find? (·.1 == a.name) with
+  | some p => NA.atomVars p.2
+  | none => []
+
+def ctermUsed (table : List (String × Expr)) : Terms.CTerm → List String
+  | .term cs => cs.flatMap (atomUsed table)
+  | _ => []
+
+/-- `Model.var_names`: the variables of the terms the RESOLVED model holds — response, common
+terms, effect and grouping side of group-specific terms.  A variable all of whose terms were
+removed again by `-` is not among them (`y ~ a + x - x` does not use `x`). -/
+def modelVars (table : List (String × Expr)) (m : Terms.ModelV) : List String :=
+  (match m.resp with | some cs => cs.flatMap (atomUsed table) | none => []) ++
+  m.common.flatMap (ctermUsed table) ++
+  m.group.flatMap (fun g => ctermUsed table g.expr ++ ctermUsed table g.factor)
+
+/-- the used variables of a formula: those of the resolved model; when the term algebra refuses
+the formula nothing is built at all, and the variables written in the formula are returned -/
+def usedVars (ops : Resolver.OpTable) (e : Expr) : List String :=
+  match Resolver.describe ops e with
+  | .ok m => modelVars (atomTable e) m
+  | .error _ => NA.formulaVars e
+
 def liftE {α} : Design.M α → Except PErr α
   | .ok a => .ok a
   | .error e => .error (.eval e)
@@ -97,7 +123,7 @@ def designMatrices (table : Parser.Table) (ops : Resolver.OpTable) (actions : Li
     | .error er => .error (.resolve er)
   let atoms := atomTable e
   -- missing values: `description.var_names ∩ data.columns`, then the policy
-  let used := (NA.formulaVars e).filter ((env.frame.map (·.name)).contains ·)
+  let used := (modelVars atoms m).filter ((env.frame.map (·.name)).contains ·)
   let frame ← match NA.naStep actions naAction used env.frame with
     | .ok f => pure f
     | .error _ => .error .na
